@@ -81,6 +81,15 @@ def run(e: Engine, rep: Report):
              'before the first use (responses of a cancelled attempt are '
              'not credentials of the next one)')
     r812(e, rep)
+    rep.rule('R8.13', 'a session handler answers by changing the reply it '
+             'was given: no method of SmtpSession rebinds its `reply` '
+             'parameter (a new Reply bound to the local name never reaches '
+             'the server - AUTH stays 235 although the handler meant 454)')
+    r813(e, rep)
+    rep.rule('R8.14', '= C07-R7.15: recv_line hands back only whole lines '
+             '(SASL responses are read with it: a line cut at a length cap '
+             'is a credential the client did not send)')
+    c07.r715(e, rep, 'R8.14')
     rep.floor('R8.1', 1, 'socket swap sites')
 
 
@@ -1019,3 +1028,32 @@ def r812(e: Engine, rep: Report):
                   'did not supply' % p, loc=c.loc(),
                   reason='emptied before the first use',
                   witness=dataflow.render_path(w, 12) if w else None)
+
+
+# ------------------------------------------------------------------ R8.13
+def r813(e: Engine, rep: Report):
+    n = 0
+    for cq in [SESSION] + list(e.p.subclasses(SESSION)):
+        c = e.p.classes.get(cq)
+        if c is None:
+            continue
+        for mname, m in sorted(c.methods.items()):
+            if 'reply' not in m.params:
+                continue
+            n += 1
+            rep.evaluations += 1
+            rep.functions.add(m.qname)
+            stores = [x for x in walk_own(m.node)
+                      if isinstance(x, ast.Name) and x.id == 'reply' and
+                      isinstance(x.ctx, (ast.Store, ast.Del))]
+            rep.check(not stores, 'R8.13', m.qname,
+                      '`reply` is changed, not rebound',
+                      '%s binds a new object to its `reply` parameter: the '
+                      'server still holds (and sends) the reply it passed '
+                      'in, so the verdict the handler meant to give never '
+                      'reaches the client' % mname,
+                      loc=m.loc(stores[0]) if stores else m.loc(),
+                      reason='no assignment to the parameter')
+    if n < 5:
+        rep.error('anchor vanished: handlers of SmtpSession taking a reply '
+                  '(%d < 5)' % n)
